@@ -5,6 +5,7 @@ import (
 	"go/ast"
 	"go/token"
 	"go/types"
+	"os"
 	"strings"
 )
 
@@ -46,6 +47,40 @@ func endsWithSlash(info *types.Info, e ast.Expr) bool {
 	}
 	if be, ok := e.(*ast.BinaryExpr); ok && be.Op == token.ADD {
 		return endsWithSlash(info, be.Y)
+	}
+	return false
+}
+
+// endsWithSlashAt: the expression ends in '/' as written, or is a local that
+// the state at the node equates with a concatenation ending in '/'.
+func endsWithSlashAt(ff *FuncFacts, st *State, e ast.Expr) bool {
+	if endsWithSlash(ff.info(), e) {
+		return true
+	}
+	t := ff.term(e)
+	if t == nil || st == nil || t.K != 'v' {
+		return false
+	}
+	var termEnds func(u *Term) bool
+	termEnds = func(u *Term) bool {
+		if u == nil {
+			return false
+		}
+		if u.K == 'c' && strings.HasPrefix(u.Name, "\"") {
+			return strings.HasSuffix(u.Name, "/\"")
+		}
+		if u.K == 'o' && u.Name == "+" && len(u.Args) == 2 {
+			return termEnds(u.Args[1])
+		}
+		return false
+	}
+	for _, f := range st.Facts() {
+		if f.Op != "eq" || !f.Pos || f.B == nil {
+			continue
+		}
+		if (f.A.String() == t.String() && termEnds(f.B)) || (f.B.String() == t.String() && termEnds(f.A)) {
+			return true
+		}
 	}
 	return false
 }
@@ -99,7 +134,6 @@ func c09Prefix(c *Ctx) {
 	// non-subgroup cases are equalities
 	if mg := p.Func("token", "", "matchGroup"); mg != nil {
 		ff := p.Facts().Analyze(mg)
-		info := mg.Pkg.TypesInfo
 		okEq := false
 		for _, ret := range ff.Returns() {
 			st, _ := ff.At(ret)
@@ -113,7 +147,7 @@ func c09Prefix(c *Ctx) {
 				}
 			}
 			if nosub {
-				if be, ok := unparen(ret.Results[0]).(*ast.BinaryExpr); ok && be.Op == token.EQL && endsWithSlash(info, be.Y) {
+				if be, ok := unparen(ret.Results[0]).(*ast.BinaryExpr); ok && be.Op == token.EQL && (endsWithSlashAt(ff, st, be.Y) || endsWithSlashAt(ff, st, be.X)) {
 					okEq = true
 				}
 			}
@@ -516,6 +550,51 @@ func c09JWT(c *Ctx) {
 				okSucc = false
 			}
 		}
+		if flag == nil {
+			// without a flag: every successful return carries "this matchGroup(url.Path, group, ...)
+			// call returned true", and that call is reached only for an audience on this host
+			hostCond := func(f *Fact) bool {
+				if f.Op == "eq" && !f.Pos && f.B != nil && ((f.A.Name == `""` && f.B.String() == hostT.String()) || (f.B.Name == `""` && f.A.String() == hostT.String())) {
+					return true
+				}
+				return f.Op == "true" && !f.Pos && f.A.K == 'k' && f.A.Name == "strings.EqualFold"
+			}
+			var mgCalls []*ast.CallExpr
+			ast.Inspect(jc.Body(), func(n ast.Node) bool {
+				if call, ok := n.(*ast.CallExpr); ok && len(call.Args) == 3 && fnIs(calleeOf(&CallSite{Call: call, In: jc}), "token", "", "matchGroup") {
+					if t := ff.term(call.Args[1]); t != nil && t.String() == TVar(params[2]).String() {
+						mgCalls = append(mgCalls, call)
+					}
+				}
+				return true
+			})
+			okSucc, okFlag, nset = len(mgCalls) > 0, true, len(mgCalls)
+			for _, mc := range mgCalls {
+				if reach, _ := ff.ReachableNotRefuting(mc, hostCond); reach {
+					okFlag = false
+				}
+			}
+			nsucc := 0
+			for _, ret := range ff.Returns() {
+				if len(ret.Results) != 3 || !isNilIdent(jinfo, ret.Results[2]) {
+					continue
+				}
+				nsucc++
+				st, _ := ff.At(ret)
+				matched := false
+				for _, mc := range mgCalls {
+					if st != nil && st.HasFact(mkFact(true, "true", &Term{K: 'r', Name: "res0", Pos: mc.Lparen}, nil)) {
+						matched = true
+					}
+				}
+				if !matched {
+					okSucc = false
+				}
+			}
+			if nsucc == 0 {
+				okSucc = false
+			}
+		}
 		c.Check(okSucc && okFlag && nset > 0, "R9.3", "JWT.Check: an audience on this host matches the group", jc.Pos(),
 			"success needs the flag that is set only under matchGroup(url.Path, group, ...) and, with a canonical host, EqualFold(url.Host, host)", "a signed token is accepted without an audience naming this server and group")
 	}
@@ -538,24 +617,27 @@ func c09GetPermission(c *Ctx) {
 		c.Unknown("R9.4", "anchors", fs.Pos(), "locals username/perms or credential fields not found")
 		return
 	}
-	// in the token branch: username = *creds.Username only under username == "" && !userExists
-	found, okGuard := false, true
+	// every successful way through the token branch, path by path: the permissions
+	// returned are result #1 of the token's Check for the group being joined; the
+	// username returned is result #0 of that Check or, when that is empty and no
+	// configured user has it, the name the client supplied
+	var checks []*ast.CallExpr
 	ast.Inspect(fs.Body(), func(n ast.Node) bool {
-		as, ok := n.(*ast.AssignStmt)
-		if !ok || len(as.Lhs) != 1 || len(as.Rhs) != 1 {
-			return true
+		if call, ok := n.(*ast.CallExpr); ok && len(call.Args) == 2 {
+			if f := calleeOf(&CallSite{Call: call, In: fs}); f != nil && f.Name() == "Check" && f.Pkg() != nil && strings.HasSuffix(f.Pkg().Path(), "/token") {
+				if t := ff.term(call.Args[1]); t != nil && t.K == 'v' && t.Obj.Name() == "groupname" {
+					checks = append(checks, call)
+				}
+			}
 		}
-		id, ok := as.Lhs[0].(*ast.Ident)
-		if !ok || info.ObjectOf(id) != uname {
-			return true
-		}
-		rt := ff.term(as.Rhs[0])
-		if rt == nil || rt.K != 'd' || rt.Args[0].K != 'f' || rt.Args[0].Obj != types.Object(fCredUser) {
-			return true
-		}
-		st, _ := ff.At(as)
-		if st == nil {
-			return true
+		return true
+	})
+	nTokenSucc, nClientName := 0, 0
+	var badName, badPerms []string
+	atExit := func(st *State, trace []*ast.CallExpr, last ast.Node) {
+		ret, ok := last.(*ast.ReturnStmt)
+		if !ok || len(ret.Results) != 3 || !isNilIdent(info, ret.Results[2]) || st == nil {
+			return
 		}
 		inToken := false
 		for _, f := range st.Facts() {
@@ -564,25 +646,68 @@ func c09GetPermission(c *Ctx) {
 			}
 		}
 		if !inToken {
-			return true // password branch: the username is the login name
+			return // password branch: C08
 		}
-		found = true
-		empty := st.HasFact(mkFact(true, "eq", TStr(""), TVar(uname)))
+		nTokenSucc++
+		var chk *ast.CallExpr
+		for _, call := range trace {
+			for _, k := range checks {
+				if call == k {
+					chk = call
+				}
+			}
+		}
+		ut, pt := ff.term(ret.Results[0]), ff.term(ret.Results[1])
+		if chk == nil || ut == nil || pt == nil {
+			badPerms = appendUniqueStr(badPerms, p.PosStr(ret.Pos()))
+			return
+		}
+		res0 := &Term{K: 'r', Name: "res0", Pos: chk.Lparen}
+		res1 := &Term{K: 'r', Name: "res1", Pos: chk.Lparen}
+		if !st.EqualUnder(pt, res1) {
+			badPerms = appendUniqueStr(badPerms, p.PosStr(ret.Pos()))
+			if os.Getenv("GALINT_DEBUG_C09") != "" {
+				fmt.Fprintf(os.Stderr, "C09 perms: %s vs %s in %v\n", pt, res1, st)
+			}
+		}
+		if st.EqualUnder(ut, res0) {
+			return
+		}
+		// the client's name
+		isClient := false
+		for _, f := range st.Facts() {
+			if f.Op != "eq" || !f.Pos || f.B == nil {
+				continue
+			}
+			for _, pr := range [][2]*Term{{f.A, f.B}, {f.B, f.A}} {
+				if pr[0].String() == ut.String() && pr[1].K == 'd' && pr[1].Args[0].K == 'f' && pr[1].Args[0].Obj == types.Object(fCredUser) {
+					isClient = true
+				}
+			}
+		}
+		empty := st.EqualUnder(res0, TStr(""))
 		noUser := false
 		for _, f := range st.Facts() {
 			if f.Op == "true" && !f.Pos && f.A.K == 'k' && strings.HasSuffix(f.A.Name, "userExists") {
 				noUser = true
 			}
 		}
-		if !empty || !noUser {
-			okGuard = false
+		if isClient && empty && noUser {
+			nClientName++
+			return
 		}
-		return true
-	})
-	c.Check(found && okGuard, "R9.4", "client-chosen username only when the token has none and no configured user has it", fs.Pos(),
-		"username = *creds.Username is dominated by username == \"\" && !desc.userExists(*creds.Username)", "a token bearer can override the token's username or take the name of a configured user")
+		badName = appendUniqueStr(badName, p.PosStr(ret.Pos()))
+	}
+	if !ff.ExplorePaths(nil, atExit, 20000) {
+		c.Unknown("R9.4", "paths of GetPermission", fs.Pos(), "path budget exhausted")
+		return
+	}
+	c.Check(len(badName) == 0 && nTokenSucc > 0 && nClientName > 0, "R9.4", "client-chosen username only when the token has none and no configured user has it", fs.Pos(),
+		fmt.Sprintf("%d successful paths through the token branch: the username is the token's, or the client's under an empty token username and !desc.userExists(*creds.Username)", nTokenSucc), "a token bearer can override the token's username or take the name of a configured user (success at "+strings.Join(badName, ", ")+")")
+	c.Check(len(badPerms) == 0 && nTokenSucc > 0 && len(checks) > 0, "R9.4", "token logins get exactly the token's username and permissions for this group", fs.Pos(),
+		"on every successful path of the token branch the permissions returned are result #1 of tok.Check(host, groupname)", "the permissions of a token login are not exactly those returned by the token's Check for the group being joined (success at "+strings.Join(badPerms, ", ")+")")
 	// perms are result #1 of tok.Check in the token branch, and the final return is dominated by validUsername
-	okPerms, okValid := false, true
+	okValid := true
 	for _, ret := range ff.Returns() {
 		if len(ret.Results) != 3 || !isNilIdent(info, ret.Results[2]) {
 			continue
@@ -601,41 +726,6 @@ func c09GetPermission(c *Ctx) {
 			okValid = false
 		}
 	}
-	ast.Inspect(fs.Body(), func(n ast.Node) bool {
-		as, ok := n.(*ast.AssignStmt)
-		if !ok || len(as.Rhs) != 1 || len(as.Lhs) != 3 {
-			return true
-		}
-		call, ok := unparen(as.Rhs[0]).(*ast.CallExpr)
-		if !ok {
-			return true
-		}
-		if f := calleeOf(&CallSite{Call: call, In: fs}); f != nil && f.Name() == "Check" {
-			id0, ok0 := as.Lhs[0].(*ast.Ident)
-			id1, ok1 := as.Lhs[1].(*ast.Ident)
-			if ok0 && ok1 && info.ObjectOf(id0) == uname && info.ObjectOf(id1) == perms && len(call.Args) == 2 {
-				// the group checked is the group being joined
-				if t := ff.term(call.Args[1]); t != nil && t.K == 'v' && t.Obj.Name() == "groupname" {
-					okPerms = true
-				}
-			}
-		}
-		return true
-	})
-	// perms is not reassigned in the token branch afterwards
-	nperm := 0
-	ast.Inspect(fs.Body(), func(n ast.Node) bool {
-		if as, ok := n.(*ast.AssignStmt); ok {
-			for _, l := range as.Lhs {
-				if id, ok := l.(*ast.Ident); ok && info.ObjectOf(id) == perms {
-					nperm++
-				}
-			}
-		}
-		return true
-	})
-	c.Check(okPerms && nperm == 2, "R9.4", "token logins get exactly the token's username and permissions for this group", fs.Pos(),
-		"username, perms, err = tok.Check(host, groupname); perms only otherwise assigned in the password branch", "the permissions of a token login are not exactly those returned by the token's Check for the group being joined")
 	c.Check(okValid, "R9.4", "the resulting username is validated", fs.Pos(), "every successful return is dominated by validUsername(username)", "an unvalidated username leaves GetPermission")
 }
 
